@@ -166,6 +166,7 @@ class VNet:
         self.queue: asyncio.Queue | None = None      # (conn, data) in arrival order
         self.on_write_hook: Callable[[VConn, bytes], None] | None = None
         self.dials: list[tuple[str, int]] = []       # every address a client tried to connect to, in order
+        self.last_sent: dict[int, tuple[bytes, tuple]] = {}      # port -> (datagram, source address) sent last
 
     # TCP
     def listen(self, host: str, port: int, accept: bool = True):
@@ -195,7 +196,12 @@ class VNet:
             return False
         if ep.host not in ("0.0.0.0", "", None):
             return False                              # device broadcasts reach sockets bound to the wildcard address only
-        loop.call_soon(self._deliver, ep, data, self.SOURCES[(VNet.nsrc * 7 + VNet.nsrc // 5) % len(self.SOURCES)])
+        src = self.SOURCES[(VNet.nsrc * 7 + VNet.nsrc // 5) % len(self.SOURCES)]
+        last = self.last_sent.get(port)
+        if last is not None and last[0] == data:
+            src = last[1]                 # a device repeating itself: the very same bytes come from the very same address
+        self.last_sent[port] = (data, src)
+        loop.call_soon(self._deliver, ep, data, src)
         return True
 
     @staticmethod
